@@ -607,7 +607,18 @@ def run_case(case):
                     if not cand:
                         continue
                     p = rng.choice(cand)
-                    porcelain.add(wt, paths=[os.path.join(wtb, p)])
+                    fp = os.path.join(wtb, p)
+                    if os.path.islink(fp) and os.path.isdir(fp):
+                        # porcelain.add(<symlink to a directory>) is specified (tests/porcelain) to follow the link; the link itself is
+                        # staged through the work tree API
+                        r = Repo(wt)
+                        try:
+                            r.get_worktree().stage([p])
+                        finally:
+                            r.close()
+                        feats.add("stage-link-to-dir-via-worktree")
+                    else:
+                        porcelain.add(wt, paths=[fp])
                     settle()
                 elif e == "stage-all":
                     r = Repo(wt)
